@@ -307,6 +307,8 @@ def run(ctx):
         json.dump({"property": "C16", "ks": e[3], "js": e[4], "k": e[6], "ctx": e[7], "what": what}, open(rp, "w"), indent=1)
         res.violations.append({"what": json.dumps(what), "replay": rp})
         res.samples.append(what)
+    from . import c16_pairs
+    c16_pairs.run_pairs(ctx, res)
     res.functions_encoded += ["oq3_parser::TopEntryPoint::parse (whole parser), three runs on shared symbolic tokens"]
     res.bounds.update({"tokens": N, "tokens_in_block_contexts": NB, "split_points": "every k in 1..n", "contexts": ctxs, "alphabet": len(kit.alphabet), "joint_bits": "symbolic"})
     res.outside_claim += ["sequences longer than the bound", "statement texts (names, literal values) - invisible to the parser"]
